@@ -30,15 +30,17 @@
 EXTENDS CCEval, ProgsIO   \* ProgsIO defines Progs, the sequence of program records
 
 CONSTANTS Mode,       \* "single" | "three"
-          Sample      \* FALSE: every choice is explored; TRUE: every choice is one random draw (simulation)
+          Sample,     \* FALSE: every choice is explored; TRUE: every choice is one random draw
+          Runs        \* number of independent runs per program (1 unless Sample)
 
-VARIABLES g,          \* index of the program being executed
+VARIABLES run,        \* run number (distinguishes the sampled runs of one program; constant in a behaviour)
+          g,          \* index of the program being executed
           x,          \* plaintext inputs chosen so far, one per Input node already evaluated
           pc,         \* next node of the compiled graph
           store,      \* store[n][p]: value of node n at party p ("na" if p never needs it)
           orc         \* the lazily sampled PRF oracle: entry -> value
 
-vars == <<g, x, pc, store, orc>>
+vars == <<run, g, x, pc, store, orc>>
 
 Parties == IF Mode = "single" THEN {0} ELSE {0, 1, 2}
 NP == Len(Progs)
@@ -113,6 +115,7 @@ Expected(i, xs) == EvalPlain(S(i), SrcPlanT[i], xs)
 Pick(SS) == IF Sample THEN {RandomElement(SS)} ELSE SS
 
 Init ==
+  /\ run \in 1..Runs
   /\ g \in 1..NP
   /\ x = <<>>
   /\ pc = 1
@@ -187,7 +190,7 @@ Step ==
   /\ pc <= Len(M(g))
   /\ \E r \in Succ(pc, store, orc) : store' = r[1] /\ orc' = r[2] /\ x' = r[3]
   /\ pc' = pc + 1
-  /\ UNCHANGED g
+  /\ UNCHANGED <<g, run>>
 
 Done == pc > Len(M(g)) /\ UNCHANGED vars
 
@@ -213,7 +216,7 @@ MacroStep ==
   /\ \E r \in Succ(pc, store, orc) :
         LET d == RunDet(pc + 1, r[1], r[2])
         IN pc' = d[1] /\ store' = d[2] /\ orc' = r[2] /\ x' = r[3]
-  /\ UNCHANGED g
+  /\ UNCHANGED <<g, run>>
 
 MacroSpec == Init /\ [][MacroStep]_vars     \* (no stuttering step at the end: a finished run is a terminal state)
 
